@@ -3,6 +3,7 @@ package main
 // Logout messages (C10) and the unverified pre-decoders (C20) at XML level.
 
 import (
+	"encoding/base64"
 	"fmt"
 	"sort"
 	"strings"
@@ -552,6 +553,26 @@ func runPredecodeStream(c *Ctx, n int) {
 			}
 		}
 		enc := b64(wire)
+		// the form value in spellings a lenient transport decoder would take and Go's strict one refuses (padding dropped,
+		// blanks / tabs between groups) and in one both take (CRLF line wrapping): whatever full validation accepts, the
+		// pre-decode must accept too
+		switch r.Intn(12) {
+		case 0:
+			if t := strings.TrimRight(enc, "="); t != enc {
+				enc = t
+				labels = append(labels, "wire-base64-padding-dropped")
+			}
+		case 1:
+			if len(enc) > 200 && shape != 13 {
+				enc = enc[:76] + " " + enc[76:152] + "\t" + enc[152:]
+				labels = append(labels, "wire-base64-blank-separated")
+			}
+		case 2:
+			if shape != 13 {
+				enc = wrapWire(enc, r.Intn(3))
+				labels = append(labels, "wire-base64-line-wrapped")
+			}
+		}
 		replay := map[string]interface{}{"op": "pre-decode vs validation", "labels": labels, "encoded": enc, "xml": string(raw), "clock": g.now.Format(time.RFC3339Nano)}
 		if shape == 13 {
 			replay["xml"] = strings.TrimRight(string(raw), "\n") + fmt.Sprintf("  [followed by %d line feeds]", len(raw)-len(strings.TrimRight(string(raw), "\n")))
@@ -625,6 +646,11 @@ func runPredecodeStream(c *Ctx, n int) {
 				c.Violate("spec", key, fmt.Sprintf("pre-decode (ID=%q InResponseTo=%q Destination=%q Version=%q Issuer=%q) vs validated (ID=%q InResponseTo=%q Destination=%q Version=%q Issuer=%q)",
 					preID, preIRT, preDest, preVer, preIss, vID, vIRT, vDest, vVer, vIss), replay)
 			}
+		}
+		if _, derr := base64.StdEncoding.DecodeString(enc); derr != nil {
+			// a spelling Go's strict base64 refuses: the message never reaches the XML layer the model starts at
+			c.Count("pre:wire-not-strict-base64")
+			continue
 		}
 		if shape != 13 && k%6 == 0 && len(raw) < 24<<10 {
 			if isLogout {
